@@ -374,6 +374,41 @@ def learn(interp, t, depth=0):
     a, b = t.children()
     if not z3.is_string(a):
         return
+    # x . common == pieces . common  says  x == pieces: strip what both sides share at their ends
+    pa = _flat_concat(norm(interp, a))
+    pb = _flat_concat(norm(interp, b))
+    st = interp.st
+
+    def empty(p):
+        return not z3.is_string_value(p) and st.len_must_hold(z3.Length(p) == 0)
+
+    while pa and pb:
+        if pa[-1].eq(pb[-1]):
+            pa.pop()
+            pb.pop()
+        elif empty(pa[-1]):
+            pa.pop()
+        elif empty(pb[-1]):
+            pb.pop()
+        else:
+            break
+    while pa and pb:
+        if pa[0].eq(pb[0]):
+            pa.pop(0)
+            pb.pop(0)
+        elif empty(pa[0]):
+            pa.pop(0)
+        elif empty(pb[0]):
+            pb.pop(0)
+        else:
+            break
+    # literal pieces that one side ends / starts with and the other side has as a longer literal
+    for x, u in ((pa, pb), (pb, pa)):
+        if len(x) == 1 and _is_atom(x[0]) and not _decomps(interp, x[0]):
+            if any(p.eq(x[0]) for p in u):
+                continue       # would be circular
+            _add_decomp(interp, x[0], u if u else [z3.StringVal('')])
+            return
     for x, u in ((a, b), (b, a)):
         if _is_piece(x) and not x.eq(u):
             if _decomps(interp, x):
@@ -383,6 +418,13 @@ def learn(interp, t, depth=0):
                 continue       # would be circular
             _add_decomp(interp, x, _flat_concat(un))
             return
+
+
+def _is_atom(t):
+    """a string term that is neither a literal nor a concatenation: a variable, an application of an
+    uninterpreted function, an array element"""
+    return z3.is_string(t) and not z3.is_string_value(t) and not (
+        z3.is_app(t) and t.decl().kind() == z3.Z3_OP_SEQ_CONCAT)
 
 
 def _len_of(p):
